@@ -181,7 +181,9 @@ def nondeterminism_sources():
             if isinstance(n, ast.Call):
                 s = ast.unparse(n.func)
                 if (s.startswith("random.") or s.startswith("np.random.") or s.startswith("numpy.random.") or s.startswith("time.")
-                        or s in ("id", "hash", "os.urandom", "os.getpid", "uuid.uuid4", "datetime.now", "datetime.datetime.now")
+                        or s in ("id", "hash", "os.urandom", "os.getpid", "uuid.uuid4", "datetime.now", "datetime.datetime.now",
+                                 "os.cpu_count", "multiprocessing.cpu_count", "os.sched_getaffinity", "platform.machine", "platform.processor")
+                        or s.startswith("threadpoolctl.") or s.endswith("threadpool_limits") or s.endswith("set_num_threads")
                         or "imap_unordered" in s or "as_completed" in s):
                     out.append({"file": rel, "call": s, "line_text": ast.unparse(n)[:70]})
             if isinstance(n, (ast.For, ast.comprehension)):
